@@ -251,6 +251,9 @@ func awsChunked(payload []byte, sizes []int, lie string) []byte {
 	if lie == "trunc" && len(out) > 3 {
 		out = out[:len(out)*2/3]
 	}
+	if lie == "trunc1" && len(out) > 3 {
+		out = out[:len(out)/3]
+	}
 	return out
 }
 
